@@ -3,8 +3,9 @@
 usage: seed_import.py <Cxx> <A|B>"""
 import json, os, shutil, sys
 p, x = sys.argv[1], sys.argv[2]
+y = sys.argv[3] if len(sys.argv) > 3 else x          # name under /verif/seeded (second round: A -> C, B -> D)
 src = "/tmp/wt/%s/seed_out/%s" % (p, x)
-dst = "/verif/seeded/%s-%s" % (p, x)
+dst = "/verif/seeded/%s-%s" % (p, y)
 conf = json.load(open(os.path.join(src, "confirm.json")))
 if not (conf.get("applies") and conf.get("builds") and conf.get("ctest_all_pass") and conf.get("demo_baseline_rc") == 0
         and conf.get("demo_modified_rc") not in (0, None)):
@@ -14,7 +15,7 @@ os.makedirs(dst, exist_ok=True)
 for f in ("patch.diff", "demo.sh", "README.md"):
     shutil.copy(os.path.join(src, f), os.path.join(dst, f))
 readme = open(os.path.join(src, "README.md"), errors="replace").read()
-meta = {"id": "%s-%s" % (p, x), "property": p,
+meta = {"id": "%s-%s" % (p, y), "property": p,
         "origin": "written by an independent sub-agent that saw only the property text and a scratch worktree of uncrustify",
         "needs_to_manifest": "see README.md (the sub-agent's description)",
         "confirmed": {"how": "tools/confirm_seed.sh in the scratch worktree: git apply, cmake --build, ctest -j8 (all 14 entries / 2035 cases), "
